@@ -165,6 +165,7 @@ func checkValueFn(w *W, f *lib.ValueFn, jaUnknown *string) {
 				outs = append(outs, b+d)
 			}
 		}
+		outs = append(outs, wrapInts...)
 		for _, v := range outs {
 			if defined[v] {
 				continue
